@@ -17,6 +17,7 @@ def hexs(s):
 class Ty:
     """Base class of instantiated types."""
     fragile = False   # a zero-copy block contains bytes whose validity the crate does not check
+    known = None      # set on the witness types of a recorded finding: the properties whose checks exercise them
 
     def rust(self): raise NotImplementedError
     def term(self): raise NotImplementedError
